@@ -28,7 +28,7 @@ CHECKS["C04"] = dict(
        "__rmul__ (and the helpers they call, each against its own contract): for every inferred operand type, every argument kind "
        "(int, bool, None, float, str, other) and ALL integers, exceptions are raised iff documented and the emitted text parses to "
        "the same tree as the fully parenthesised (?:P){lo,hi}[?] - integer leaves compared by the solver. Unbounded in the integers "
-       "and operands.",
+       "and operands. The seven class spellings (quantifiers.py) are proved to have the text of the method spelling.",
   note=PROOF_NOTE + " Bounds below sre MAXREPEAT.",
   technique="contract-based deductive verification: AST->VC symbolic execution of the real methods, callee contracts, z3; tree equality via CPython's parser on placeholder texts",
   design_ref="DESIGN.md section 8 (C04), 3.3, Appendix B.1")
@@ -235,8 +235,10 @@ CHECKS["C20"] = dict(
        "class-level table is enumerated and must be one of: the constructors' own fields, the compiled-pattern cache in compile()/"
        "get_compiled_pattern()); frame clauses of the contracts proved by the VC driver (no method writes a field of self or of an "
        "operand outside its frame); the cache invariant (C11) makes the cache unobservable; results are functions of operand fields "
-       "only. Random histories over shared operands are exercised by the bounded stand-in B20.",
-  note=PROOF_NOTE + " Equivalence of class TEXT across hash seeds is not claimed (sets are equal: B2/B3).",
+       "only. Hash-seed independence where python sets are iterated (the class algebra): __or, __sub and their nested interval "
+       "functions are proved for an ARBITRARY enumeration of every set they iterate, so the denoted set of the result does not "
+       "depend on the seed. Random histories over shared operands are exercised by the bounded stand-in B20.",
+  note=PROOF_NOTE + " Equality of class TEXT across hash seeds is not claimed (the denoted sets are equal; text layer: B2/B3).",
   technique="syntactic frame scan of the real source + frame obligations of the contract-based VCs (z3); bounded history stand-in",
   design_ref="DESIGN.md section 8 (C20)")
 
